@@ -129,22 +129,37 @@ impl Axecutor {
             segment,
         } = o;
         let mut addr: u64 = 0;
+        // With the address-size override prefix base and index are 32-bit registers
+        // and the offset is truncated to 32 bits
+        let mut address_size_32 = false;
         if let Some(base) = base {
-            addr = addr.wrapping_add(
+            let base_value = if iced_x86::Register::from(base).is_gpr32() {
+                address_size_32 = true;
+                self.reg_read_32(base)
+                    .expect("reading memory operand base register")
+            } else {
                 self.reg_read_64(base)
-                    .expect("reading memory operand base register"),
-            );
+                    .expect("reading memory operand base register")
+            };
+            addr = addr.wrapping_add(base_value);
         }
         if let Some(index) = index {
-            addr = addr.wrapping_add(
+            let index_value = if iced_x86::Register::from(index).is_gpr32() {
+                address_size_32 = true;
+                self.reg_read_32(index)
+                    .expect("reading memory operand index register")
+            } else {
                 self.reg_read_64(index)
                     .expect("reading memory operand index register")
-                    .wrapping_mul(scale as u64),
-            );
+            };
+            addr = addr.wrapping_add(index_value.wrapping_mul(scale as u64));
         }
 
         // This overflow is explicitly allowed, as x86-64 encodes negative values as signed integers
         addr = addr.wrapping_add(displacement);
+        if address_size_32 {
+            addr &= 0xffff_ffff;
+        }
 
         if let Some(reg) = segment {
             match reg {
@@ -208,6 +223,8 @@ impl Axecutor {
                     iced_x86::Register::None => None,
                     // If base is RIP, we can use the displacement as-it. No need to add it to the memory address
                     iced_x86::Register::RIP => None,
+                    // Same with the address-size override prefix (EIP-relative): the decoder resolved the displacement
+                    iced_x86::Register::EIP => None,
                     r => Some(SupportedRegister::from(r)),
                 };
                 let index = match i.memory_index() {
